@@ -141,6 +141,7 @@ func inlineRound(p *Prog, baseline map[string]bool) (map[string][]byte, []string
 				}
 				ctx.collectClosures()
 				ctx.etaExpandArgs()
+				ctx.inlineExprFuncs()
 				ctx.walkStmts(fd.Body)
 				ctx.finishClosures()
 				edits = append(edits, ctx.edits...)
@@ -194,6 +195,7 @@ type inlCtx struct {
 	skipped        []string
 	counter        int
 	pendingClosure types.Object
+	exprInlined    map[*ast.CallExpr]bool // calls replaced by the callee's single returned expression
 }
 
 func (c *inlCtx) text(n ast.Node) string {
@@ -357,6 +359,182 @@ func (c *inlCtx) collectClosures() {
 			c.inlined = append(c.inlined, c.callerKey+"$"+o.Name()+" (as a value)")
 		}
 	}
+}
+
+// inlineExprFuncs replaces, wherever they stand (a range clause, a condition, an argument, an index), the calls of
+// functions the reference tree does not have whose body is one `return <expression>`: accessors such as
+// `func (q *Q) tasks() []T { return q.items }` or `func (q *Q) length() int { return len(q.items) }`. The call is
+// replaced by the parenthesised expression with receiver and parameters substituted; nothing is hoisted, so the order
+// of evaluation is kept. Conditions: arguments and receiver are plain names, field selections or literals, each
+// parameter is used at most once in the expression or its argument is free of calls (it is, being plain), no function
+// literal in the expression, and every free name means the same at the call site.
+func (c *inlCtx) inlineExprFuncs() {
+	info := c.pk.TypesInfo
+	var plain func(e ast.Expr) bool
+	plain = func(e ast.Expr) bool {
+		switch t := ast.Unparen(e).(type) {
+		case *ast.Ident, *ast.BasicLit:
+			return true
+		case *ast.SelectorExpr:
+			return plain(t.X)
+		case *ast.StarExpr:
+			return plain(t.X)
+		case *ast.UnaryExpr:
+			return t.Op == token.AND && plain(t.X)
+		}
+		return false
+	}
+	ast.Inspect(c.caller.Body, func(n ast.Node) bool {
+		call, isCall := n.(*ast.CallExpr)
+		if !isCall || call.Ellipsis.IsValid() {
+			return true
+		}
+		fn, isFn := CalleeOf(info, call).(*types.Func)
+		if !isFn || fn.Pkg() != c.pk.Types {
+			return true
+		}
+		f := c.p.byObj[fn.Origin()]
+		if f == nil || f.Decl.Body == nil || c.baseline[f.Key] || f.Decl == c.caller || len(f.Decl.Body.List) != 1 {
+			return true
+		}
+		ret, isRet := f.Decl.Body.List[0].(*ast.ReturnStmt)
+		if !isRet || len(ret.Results) != 1 {
+			return true
+		}
+		sig, _ := fn.Type().(*types.Signature)
+		if sig == nil || sig.Variadic() || sig.TypeParams() != nil || sig.RecvTypeParams() != nil {
+			return true
+		}
+		// the callee's file and source
+		var cf *ast.File
+		for _, sf := range c.pk.Syntax {
+			if sf.Pos() <= f.Decl.Pos() && f.Decl.Pos() < sf.End() {
+				cf = sf
+			}
+		}
+		if cf == nil {
+			return true
+		}
+		ctf := c.p.Fset.File(cf.Pos())
+		csrc, err := c.p.ReadAbs(ctf.Name())
+		if err != nil {
+			return true
+		}
+		expr := ret.Results[0]
+		hasLit := false
+		ast.Inspect(expr, func(m ast.Node) bool {
+			if _, isL := m.(*ast.FuncLit); isL {
+				hasLit = true
+			}
+			return !hasLit
+		})
+		if hasLit {
+			return true
+		}
+		// bindings: parameter / receiver object -> argument text
+		bind := map[types.Object]string{}
+		okArgs := true
+		if f.Decl.Recv != nil && len(f.Decl.Recv.List) == 1 {
+			sel, isSel := ast.Unparen(call.Fun).(*ast.SelectorExpr)
+			if !isSel || !plain(sel.X) {
+				return true
+			}
+			if names := f.Decl.Recv.List[0].Names; len(names) == 1 && names[0].Name != "_" {
+				bind[info.Defs[names[0]]] = c.text(sel.X)
+			}
+		}
+		ai := 0
+		if f.Decl.Type.Params != nil {
+			for _, fl := range f.Decl.Type.Params.List {
+				k := len(fl.Names)
+				if k == 0 {
+					k = 1
+				}
+				for j := 0; j < k; j++ {
+					if ai >= len(call.Args) || !plain(call.Args[ai]) {
+						okArgs = false
+						break
+					}
+					if j < len(fl.Names) && fl.Names[j].Name != "_" {
+						bind[info.Defs[fl.Names[j]]] = c.text(call.Args[ai])
+					}
+					ai++
+				}
+			}
+		}
+		if !okArgs || ai != len(call.Args) {
+			return true
+		}
+		// free names of the expression mean the same at the call site
+		callScope := c.pk.Types.Scope().Innermost(call.Pos())
+		okNames := callScope != nil
+		type repl struct {
+			start, end int
+			text       string
+		}
+		var repls []repl
+		ast.Inspect(expr, func(m ast.Node) bool {
+			if sel, isSel := m.(*ast.SelectorExpr); isSel {
+				// only the operand of a selector is a free name
+				ast.Inspect(sel.X, func(x ast.Node) bool { return true })
+			}
+			id, isId := m.(*ast.Ident)
+			if !isId || !okNames {
+				return true
+			}
+			o := info.Uses[id]
+			if o == nil {
+				return true
+			}
+			if t, bound := bind[o]; bound {
+				txt := t
+				if _, isPlainId := ast.Unparen(nil).(*ast.Ident); !isPlainId && strings.ContainsAny(t, ".*&") {
+					txt = "(" + t + ")"
+				}
+				repls = append(repls, repl{ctf.Offset(id.Pos()), ctf.Offset(id.End()), txt})
+				return true
+			}
+			if _, isPN := o.(*types.PkgName); isPN {
+				_, at := callScope.LookupParent(id.Name, call.Pos())
+				pn, isPN2 := at.(*types.PkgName)
+				if !isPN2 || pn.Imported() != o.(*types.PkgName).Imported() {
+					okNames = false
+				}
+				return true
+			}
+			if o.Parent() == nil {
+				return true // field or method
+			}
+			if _, at := callScope.LookupParent(id.Name, call.Pos()); at != o {
+				okNames = false
+			}
+			return true
+		})
+		if !okNames {
+			return true
+		}
+		// build the text of the expression with the replacements applied
+		es, ee := ctf.Offset(expr.Pos()), ctf.Offset(expr.End())
+		sort.Slice(repls, func(i, j int) bool { return repls[i].start < repls[j].start })
+		var sb strings.Builder
+		pos := es
+		for _, r := range repls {
+			if r.start < pos {
+				continue
+			}
+			sb.Write(csrc[pos:r.start])
+			sb.WriteString(r.text)
+			pos = r.end
+		}
+		sb.Write(csrc[pos:ee])
+		c.edits = append(c.edits, inlineEdit{start: c.tf.Offset(call.Pos()), end: c.tf.Offset(call.End()), text: "(" + sb.String() + ")"})
+		c.inlined = append(c.inlined, c.callerKey+" <- "+f.Key)
+		if c.exprInlined == nil {
+			c.exprInlined = map[*ast.CallExpr]bool{}
+		}
+		c.exprInlined[call] = true
+		return false
+	})
 }
 
 // etaExpandArgs: a function or method of the same package that the reference tree does not have and that is handed to a
@@ -731,6 +909,9 @@ func (c *inlCtx) skip(call *ast.CallExpr, name, why string) {
 // tryCall generates the replacement of st when call is an inlinable call.
 func (c *inlCtx) tryCall(st ast.Stmt, call *ast.CallExpr, kind callKind, as *ast.AssignStmt, neg bool) {
 	c.pendingClosure = nil
+	if c.exprInlined[call] {
+		return // already replaced in place by the callee's returned expression
+	}
 	name, ft, body, recv, calleeFile, sig, ok := c.calleeOf(call)
 	if !ok {
 		return
